@@ -155,6 +155,11 @@ func (r *schemaLoader) resolveRef(ref *Ref, target interface{}, basePath string)
 		if err != nil {
 			return err
 		}
+		if rv := reflect.ValueOf(res); rv.Kind() == reflect.Ptr && rv.IsNil() {
+			// the pointer went through a member that is absent from a typed root (e.g. "not", "items"):
+			// there is nothing to decode, where a generic root reports a missing key
+			return fmt.Errorf("%q designates an absent member of the root document: %w", ref.String(), ErrSpec)
+		}
 	}
 	verifResolved(ref, basePath, (ref.IsRoot() || ref.HasFragmentOnly) && root != nil, res)
 	return swag.DynamicJSONToStruct(res, target)
